@@ -19,7 +19,8 @@ class PathElementRegistry:
         if instance is None:
             fault = Fault()
             fault.Code.Value = faultcodeEnum.SENDER
-            fault.add_reason_text(f'invalid path {path_element}')
+            # repr: the path element comes from the request line and may contain characters that are not allowed in XML
+            fault.add_reason_text(f'invalid path {path_element!r}')
 
             raise InvalidPathError(reason=f'{path_element} not found', soap_fault=fault)
         return instance
